@@ -3,7 +3,7 @@
 # receive VERIF_SHARD/VERIF_NSHARDS and partition their enumeration.
 CHECKS = {}
 NOT_APPLICABLE = {}
-HOOK_COMMITS = ["62d9977"]
+HOOK_COMMITS = ["62d9977", "2330afa"]
 
 CHECKS["C07"] = {
     "pkg": "props/c07",
